@@ -26,6 +26,7 @@ import PGProofs.VanLoan
 import PGProofs.RewardsThm
 import PGProofs.Labelled
 import PGProofs.ConfigThm
+import PGProofs.EndToEnd
 
 set_option linter.all false
 set_option pp.fieldNotation.generalized false
@@ -99,6 +100,15 @@ theorem glue_deme_reward_sorted_defect : ¬Config.NamedSemantics Config.Variant.
 /-- a 4-deme instance with unsorted names and two omitted populations satisfies the hypotheses and the conclusion -/
 theorem glue_nonvacuous : Config.NamedSemantics Config.Variant.current Config.exInput 0 ∧ Config.NamedSemantics Config.Variant.current Config.exInput (3 / 2) ∧ Config.NamedSemantics Config.Variant.current Config.exInput (5 / 2) := @PG.Config.exInput_current_ok
 
+/-- CAPSTONE: two listings of the same named input (any order in each container, unsampled demes listed or omitted, any set order) make moment(...) return the same value for rewards given BY NAME, for every call and call-layer variant, exceptions included -/
+theorem end_to_end_named : ∀ {K : Type} [inst : Field K] [inst_1 : LinearOrder K] [inst_2 : IsStrictOrderedRing K] (I I' : Config.Input), List.Nodup (Config.Input.linNames I) → Config.ValidSetOrder I → List.Nodup (Config.Input.linNames I') → Config.ValidSetOrder I' → List.Perm I'.sizes I.sizes → List.Nodup (List.map (fun x ↦ x.1) I.sizes) → List.Perm I'.mig I.mig → List.Nodup (List.map (fun x ↦ x.1) I.mig) → List.Perm (List.filter (fun e ↦ decide (e.2 ≠ 0)) (Config.NInput.toDict I'.n)) (List.filter (fun e ↦ decide (e.2 ≠ 0)) (Config.NInput.toDict I.n)) → (∀ p ∈ Config.Input.linNames I, Config.nOf I p = 0 → p ∈ Config.Input.linNames I' ∨ p ∈ Config.rawDemNames I.sizes I.mig) → (∀ p ∈ Config.Input.linNames I', Config.nOf I' p = 0 → p ∈ Config.Input.linNames I ∨ p ∈ Config.rawDemNames I.sizes I.mig) → ∀ {m : Model} (tsOf : ℚ → ℚ) (te : ℕ → ℚ) {cinit cinit' : Fin (List.length (Config.axis I)) → ℕ} {r r' : ℕ → ℚ} {fuel fuel' : ℕ → ℕ} {G G' : ℕ → Graph}, (∀ (e : ℕ), bfs (transit m (mkEpoch (fun d ↦ tsOf (Config.sizesFn Config.Variant.current I (te e) (List.length (Config.axis I)) d)) (Config.migFn Config.Variant.current I (te e) (List.length (Config.axis I))) (r e))) (encLC cinit) (fuel e) = some (G e)) → (∀ (e : ℕ), bfs (transit m (mkEpoch (fun d ↦ tsOf (Config.sizesFn Config.Variant.current I' (te e) (List.length (Config.axis I)) d)) (Config.migFn Config.Variant.current I' (te e) (List.length (Config.axis I))) (r' e))) (encLC cinit') (fuel' e) = some (G' e)) → ∑ d, cinit' d = ∑ d, cinit d → ∀ (L : ExpLaw K) (n : ℕ), ∑ d, Config.initFn I (List.length (Config.axis I)) d = ∑ d, cinit d → ∀ (eps : List EpochT) (dr : EndToEnd.NamedReward) (sd tm : ℚ) (v : Api.Variant) (c : Api.MomentCall EndToEnd.NamedReward), EndToEnd.NamedReward.OnAxis I dr → (∀ (rs : List EndToEnd.NamedReward), c.rewards = some rs → ∀ nr ∈ rs, EndToEnd.NamedReward.OnAxis I nr) → EndToEnd.momentCallK v (EndToEnd.codeCtx L G' n (Config.initFn I' (List.length (Config.axis I))) eps (EndToEnd.NamedReward.resolve I' dr) sd tm) (EndToEnd.mapRewards (EndToEnd.NamedReward.resolve I') c) = EndToEnd.momentCallK v (EndToEnd.codeCtx L G n (Config.initFn I (List.length (Config.axis I))) eps (EndToEnd.NamedReward.resolve I dr) sd tm) (EndToEnd.mapRewards (EndToEnd.NamedReward.resolve I) c) := @PG.EndToEnd.moment_call_named_invariant
+
+/-- and that value is the labelled-process combination for the first listing -/
+theorem end_to_end_named_labelled : type_of% @PG.EndToEnd.moment_call_named_eq_labelled := @PG.EndToEnd.moment_call_named_eq_labelled   -- (printed statement does not re-elaborate; see the source lemma)
+
+/-- a concrete two-deme instance with every dict reversed -/
+theorem end_to_end_named_instance : ∀ {K : Type} [inst : Field K] [inst_1 : LinearOrder K] [inst_2 : IsStrictOrderedRing K] (L : ExpLaw K) (n : ℕ) (eps : List EpochT) (sd tm : ℚ) (v : Api.Variant), EndToEnd.momentCallK v (EndToEnd.codeCtx L (fun x ↦ EndToEnd.exGI EndToEnd.exI') n (Config.initFn EndToEnd.exI' (List.length (Config.axis EndToEnd.exI))) eps (EndToEnd.NamedReward.resolve EndToEnd.exI' EndToEnd.NamedReward.treeHeight) sd tm) (EndToEnd.mapRewards (EndToEnd.NamedReward.resolve EndToEnd.exI') { k := 2, rewards := some [EndToEnd.NamedReward.deme "a", EndToEnd.NamedReward.treeHeight] }) = EndToEnd.momentCallK v (EndToEnd.codeCtx L (fun x ↦ EndToEnd.exGI EndToEnd.exI) n (Config.initFn EndToEnd.exI (List.length (Config.axis EndToEnd.exI))) eps (EndToEnd.NamedReward.resolve EndToEnd.exI EndToEnd.NamedReward.treeHeight) sd tm) (EndToEnd.mapRewards (EndToEnd.NamedReward.resolve EndToEnd.exI) { k := 2, rewards := some [EndToEnd.NamedReward.deme "a", EndToEnd.NamedReward.treeHeight] }) := @PG.EndToEnd.named_invariant_instance
+
 end PG.C08
 
 #print axioms PG.C08.moments_perm
@@ -123,3 +133,6 @@ end PG.C08
 #print axioms PG.C08.glue_mig_by_sorted_names_defect
 #print axioms PG.C08.glue_deme_reward_sorted_defect
 #print axioms PG.C08.glue_nonvacuous
+#print axioms PG.C08.end_to_end_named
+#print axioms PG.C08.end_to_end_named_labelled
+#print axioms PG.C08.end_to_end_named_instance
